@@ -2,6 +2,7 @@ package client
 
 import (
 	"fmt"
+	"sync"
 	"time"
 
 	pkts "github.com/energomonitor/bisquitt/packets"
@@ -23,6 +24,9 @@ type sleepTransaction struct {
 	sleepDuration       time.Duration
 	state               transactionState
 	timer               *time.Timer
+	// mu serializes the API call, the timer callbacks and the receive loop:
+	// the gateway's reply can arrive before Sleep() has armed its timer.
+	mu sync.Mutex
 }
 
 func newSleepTransaction(client *Client, sleepDuration time.Duration) *sleepTransaction {
@@ -63,6 +67,8 @@ func (t *sleepTransaction) Fail(e error) {
 }
 
 func (t *sleepTransaction) Sleep() error {
+	t.mu.Lock()
+	defer t.mu.Unlock()
 	state := t.client.state.Get()
 	switch state {
 	case util.StateActive:
@@ -83,6 +89,12 @@ func (t *sleepTransaction) Sleep() error {
 }
 
 func (t *sleepTransaction) resendDisconnect() {
+	t.mu.Lock()
+	defer t.mu.Unlock()
+	if t.disconnect == nil {
+		// The reply has arrived while this timer was firing.
+		return
+	}
 	t.disconnectResendNum++
 	if t.disconnectResendNum > t.retryCount {
 		t.log.Debug("DISCONNECT reply timeout.")
@@ -98,6 +110,8 @@ func (t *sleepTransaction) resendDisconnect() {
 }
 
 func (t *sleepTransaction) Disconnect(disconnect *pkts1.Disconnect) {
+	t.mu.Lock()
+	defer t.mu.Unlock()
 	if t.state != awaitingDisconnect {
 		t.log.Debug("Unexpected packet in %d: %v", t.state, disconnect)
 		return
@@ -108,6 +122,8 @@ func (t *sleepTransaction) Disconnect(disconnect *pkts1.Disconnect) {
 }
 
 func (t *sleepTransaction) Pingresp(pingresp *pkts1.Pingresp) {
+	t.mu.Lock()
+	defer t.mu.Unlock()
 	if t.state != awaitingPingresp {
 		t.log.Debug("Unexpected packet in %d: %v", t.state, pingresp)
 		return
@@ -129,6 +145,8 @@ func (t *sleepTransaction) startSleep() {
 }
 
 func (t *sleepTransaction) wakeup() {
+	t.mu.Lock()
+	defer t.mu.Unlock()
 	t.client.setState(util.StateAwake)
 	t.log.Debug("Awake")
 	t.state = awaitingPingresp
@@ -138,6 +156,8 @@ func (t *sleepTransaction) wakeup() {
 		return
 	}
 	t.timer = time.AfterFunc(maxPingrespWait, func() {
+		t.mu.Lock()
+		defer t.mu.Unlock()
 		t.Fail(fmt.Errorf("did not receive PINGRESP in %v", maxPingrespWait))
 	})
 }
